@@ -232,6 +232,24 @@ func GenShape(t *rapid.T, idx int) Shape {
 	if rapid.IntRange(0, 5).Draw(t, "diamond") == 0 {
 		g.addDiamond()
 	}
+	switch rapid.IntRange(0, 19).Draw(t, "extreme") {
+	case 0:
+		// a member larger than 64 KiB in front: every other field of the root lies beyond the reach of a 16-bit offset
+		root := &g.sh.Structs[0]
+		root.Fields = append([]Field{{Name: "Huge0", Kind: "plain", Type: "[9000]uint64"}}, root.Fields...)
+	case 1:
+		// more than 64 entries in front of everything else: positions in the listing beyond 63 (one-word bit sets)
+		root := &g.sh.Structs[0]
+		var wide []Field
+		for i := 0; i < rapid.IntRange(64, 70).Draw(t, "wide"); i++ {
+			wide = append(wide, Field{Name: fmt.Sprintf("W%d", i), Kind: "plain", Type: rapid.SampledFrom([]string{"bool", "int8", "uint8", "int16"}).Draw(t, "wt")})
+		}
+		root.Fields = append(wide, root.Fields...)
+		g.nextID++
+		tn := fmt.Sprintf("E%d_%d", g.idx, g.nextID+40)
+		g.sh.Structs = append(g.sh.Structs, Struct{Name: tn, Fields: []Field{{Name: "PX", Kind: "plain", Type: "int32"}, {Name: "PY", Kind: "plain", Type: "string"}}})
+		g.sh.Structs[0].Fields = append(g.sh.Structs[0].Fields, Field{Name: tn, Kind: "pembed", Type: tn})
+	}
 	g.addTags()
 	return *g.sh
 }
